@@ -418,6 +418,93 @@ impl Gen {
         None
     }
 
+    /// Integer values at and around the limits and the live window of the log.
+    pub fn special_values(&self) -> Vec<u64> {
+        let mut v = vec![0u64, 1, 2, (1 << 32) - 1, 1 << 32, 1 << 63, u64::MAX - 1, u64::MAX];
+        let mut around = |x: u64| {
+            v.push(x.saturating_sub(1));
+            v.push(x);
+            v.push(x.saturating_add(1));
+            v.push(x.saturating_add(2));
+        };
+        if let Some(p) = self.m.st.purged {
+            around(p.1);
+        }
+        if let Some(l) = self.m.st.last {
+            around(l.1);
+        }
+        if let Some(f) = self.m.first_index() {
+            around(f);
+        }
+        if let Some(c) = self.m.st.committed {
+            around(c.1);
+        }
+        v.sort();
+        v.dedup();
+        v
+    }
+
+    fn special_term(&mut self) -> u64 {
+        let lt = self.m.st.last.map(|l| l.0).unwrap_or(0);
+        *self.r.pick(&[0u64, 1, lt, lt.saturating_add(1), lt.saturating_sub(1), self.term_hint, u64::MAX - 1, u64::MAX])
+    }
+
+    /// One call with arguments at the integer limits / around purged and last (C16).
+    pub fn gen_adversarial(&mut self) -> Op {
+        let sv = self.special_values();
+        let x = *self.r.pick(&sv);
+        let y = *self.r.pick(&sv);
+        match self.r.below(14) {
+            0 | 1 => Op::Truncate(x),
+            2 | 3 => Op::Read(x, y),
+            4 | 5 => Op::Purge((self.special_term(), x)),
+            6 => Op::Commit((self.special_term(), x)),
+            7 | 8 => {
+                let n = self.r.range(1, 2) as usize;
+                let mut es = vec![];
+                let t = self.special_term();
+                for k in 0..n {
+                    es.push(((t, x.wrapping_add(k as u64)), self.payload(k)));
+                }
+                Op::Append(es)
+            }
+            9 => Op::Vote((self.special_term(), x)),
+            10 => Op::UserData(if self.r.chance(1, 2) { None } else { Some(String::new()) }),
+            11 => Op::Misc(self.r.below(5) as u8),
+            12 => Op::Append(vec![]),
+            _ => Op::Flush { cb: false },
+        }
+    }
+
+    /// A burst of adversarial calls appended to a legal history. The model follows every
+    /// call it accepts, so later calls are aimed at the state the store should be in.
+    pub fn adversarial_burst(&mut self, n: usize, out: &mut Vec<Step>) {
+        for _ in 0..n {
+            self.opn = out.len() as u32;
+            let op = self.gen_adversarial();
+            if op.is_write() {
+                let mut m2 = self.m.clone();
+                let (_, res) = Gen::apply_to_model(&mut m2, &op);
+                if res.is_ok() {
+                    self.m = m2;
+                } else if let Err((_, at)) = res {
+                    if at > 0 {
+                        self.m = m2;
+                    }
+                }
+            }
+            out.push(Step { op, expect: Expect::Any });
+        }
+        // update_state with limit values: only as the very last call (the state it creates
+        // need not be reachable by a legal history)
+        if self.r.chance(1, 2) {
+            let sv = self.special_values();
+            let mut pick = |g: &mut Gen| -> Option<(u64, u64)> { if g.r.chance(1, 4) { None } else { Some((g.special_term(), *g.r.pick(&sv))) } };
+            let st = crate::model::MState { vote: pick(self), last: pick(self), committed: pick(self), purged: pick(self), user_data: None };
+            out.push(Step { op: Op::UpdateState(st), expect: Expect::Any });
+        }
+    }
+
     /// Apply a write op to the generator's model exactly as the specification says.
     /// Returns the journalled single-record writes and the expectation.
     pub fn apply_to_model(m: &mut Model, op: &Op) -> (Vec<Rec>, Result<(), (Reject, usize)>) {
